@@ -21,7 +21,7 @@
 use deltio::subscriptions::flow_control::{self, FlowControl};
 use std::future::Future;
 use std::pin::Pin;
-use std::sync::atomic::{AtomicBool, AtomicU64, AtomicUsize, Ordering};
+use std::sync::atomic::{AtomicU64, AtomicUsize, Ordering};
 use std::sync::{Arc, Barrier, Condvar, Mutex};
 use std::task::{Context, Poll, Wake, Waker};
 
@@ -163,7 +163,9 @@ fn drive_wait(sh: &Shadow, ws: &Arc<WaiterState>, spin_before: u64) -> WaitResul
     for _ in 0..spin_before {
         std::hint::spin_loop();
     }
-    let start_completed = if sh.free { sh.now() } else { sh.completed.load(Ordering::SeqCst) };
+    // the window in which the waiter can have looked at the counters before resuming is its
+    // *final* poll: the real code evaluates both counters inside one poll, after its last wake-up
+    let mut start_completed;
     let waker = Waker::from(Arc::clone(ws));
     let mut cx = Context::from_waker(&waker);
     let mut fut: Pin<Box<dyn Future<Output = ()> + '_>> = Box::pin(sh.fc.wait_for_available_space());
@@ -171,6 +173,7 @@ fn drive_wait(sh: &Shadow, ws: &Arc<WaiterState>, spin_before: u64) -> WaitResul
     let mut parked_once = false;
     loop {
         polls += 1;
+        start_completed = if sh.free { sh.now() } else { sh.completed.load(Ordering::SeqCst) };
         match fut.as_mut().poll(&mut cx) {
             Poll::Ready(()) => break,
             Poll::Pending => {
@@ -217,7 +220,13 @@ struct Script {
 /// Scripts always start without capacity and end with capacity.
 fn make_script(rng: &mut Rng, kind: u64) -> Script {
     let waiters = 1 + rng.below(3) as usize;
-    match kind % 5 {
+    match kind % 6 {
+        5 => {
+            // both limits exhausted; messages are freed, taken again, then bytes are freed: at no
+            // moment is there capacity, until the last step frees a message ("patient" script: the
+            // mutator lets the waiters react to every step)
+            Script { muts: vec![vec![(false, 0, 1), (true, 0, 1), (false, 60, 0), (false, 0, 1)]], waiters, init: (MAX_MSGS, MAX_BYTES + 10) }
+        }
         4 => {
             // both limits exceeded; two symmetric decrements that cross each other; the sum frees capacity
             Script { muts: vec![vec![(false, 40, 1)], vec![(false, 40, 1)]], waiters, init: (MAX_MSGS + 1, MAX_BYTES + 50) }
@@ -300,6 +309,8 @@ fn run_trial_spawned(script: &Script, rng: &mut Rng, jitter: bool, free: bool) -
         // a third of the trials: no jitter at all, so that the mutators' calls cross each other
         let spins: Vec<u64> = ops.iter().map(|_| if jitter && !tight { rng.below(300) } else { 0 }).collect();
         let gate = Arc::clone(&spin_gate);
+        let patient = script.muts.len() == 1 && script.muts[0].len() == 4;
+        let states2 = states.clone();
         mh.push(std::thread::spawn(move || {
             go.wait();
             if tight {
@@ -314,6 +325,20 @@ fn run_trial_spawned(script: &Script, rng: &mut Rng, jitter: bool, free: bool) -
                     std::hint::spin_loop();
                 }
                 sh.apply(*inc, *b, *m);
+                if patient {
+                    // let every waiter react to this step: each one is done, or parked again with
+                    // its wake-up consumed (bounded; giving up only makes the trial less pointed)
+                    for _ in 0..20_000 {
+                        let settled = states2.iter().all(|ws| {
+                            let p = ws.park.lock().unwrap();
+                            p.done || (p.parked && !p.woken)
+                        });
+                        if settled {
+                            break;
+                        }
+                        std::thread::yield_now();
+                    }
+                }
             }
         }));
     }
@@ -402,7 +427,7 @@ fn main() {
                     std::process::exit(1);
                 }
                 (None, Some(i)) => println!("FLOW INCONCLUSIVE {}", i),
-                _ => println!("FLOW ok script={} waiters={} parked={} polls={:?}", k % 5, script.waiters, o.parked, o.polls),
+                _ => println!("FLOW ok script={} waiters={} parked={} polls={:?}", k % 6, script.waiters, o.parked, o.polls),
             }
         }
         "native" => {
@@ -417,7 +442,7 @@ fn main() {
             let mut inconclusive = 0u64;
             let mut samples: Vec<serde_json::Value> = vec![];
             for t in 0..trials {
-                let kind = rng.below(5);
+                let kind = rng.below(6);
                 let script = make_script(&mut rng, kind);
                 let free = rng.below(2) == 0;
                 let o = run_trial_spawned(&script, &mut rng, true, free);
@@ -445,7 +470,7 @@ fn main() {
                 "episodes": trials, "nontrivial": parked_trials, "keys": keys.iter().map(|k| { let mut h: u64 = 0xcbf29ce484222325; for b in k.bytes() { h ^= b as u64; h = h.wrapping_mul(0x100000001b3); } h }).collect::<Vec<u64>>(),
                 "violations": violations, "inconclusive": if inconclusive > 0 { serde_json::json!({"flow-native: waiter neither finished nor parked within 20 s": inconclusive}) } else { serde_json::json!({}) },
                 "counters": {"trials_with_parked_waiter": parked_trials}, "minmax": {}, "samples": samples, "hooks": {}, "panics": [],
-                "rule": "native threads: per trial 1-3 waiter threads drive wait_for_available_space() with a hand-written executor while 1-2 mutator threads run a script of inc/dec (5 script kinds: single releasing dec, two mutators freeing one dimension each, capacity churn, two mutators with add/remove pairs, two symmetric crossing decrements from a state above both limits) with random spin jitter between the steps; in half of the trials the mutators are serialised by the trace wrapper (exact trace, strong spurious-resume oracle), in the other half they overlap freely (crossing inc/dec calls; logical-clock log, lower-bound spurious-resume oracle). Non-trivial: a waiter parked at least once before returning. Distinct: (script kind, waiters, script lengths, sorted poll-count vector).",
+                "rule": "native threads: per trial 1-3 waiter threads drive wait_for_available_space() with a hand-written executor while 1-2 mutator threads run a script of inc/dec (6 script kinds: single releasing dec, two mutators freeing one dimension each, capacity churn, two mutators with add/remove pairs, two symmetric crossing decrements from a state above both limits, and a patient script in which messages are freed, taken again and bytes freed so that capacity never exists until the last step) with random spin jitter between the steps; in half of the trials the mutators are serialised by the trace wrapper (exact trace, strong spurious-resume oracle), in the other half they overlap freely (crossing inc/dec calls; logical-clock log, lower-bound spurious-resume oracle). Non-trivial: a waiter parked at least once before returning. Distinct: (script kind, waiters, script lengths, sorted poll-count vector).",
                 "exhaustive_plan": false, "truncated": false, "wall_s": t0.elapsed().as_secs_f64()
             });
             let s = serde_json::to_string(&j).unwrap();
